@@ -156,6 +156,7 @@ type Core struct {
 	ctxCancel       func()
 	confPath        string
 	conf            atomic.Pointer[conf.Conf]
+	apiConf         atomic.Pointer[conf.Conf]
 	supportsIPv6    bool
 	logger          *logger.Logger
 	externalCmdPool *externalcmd.Pool
@@ -272,6 +273,7 @@ func New(args []string) (*Core, bool) {
 
 	p.confPath = confPath
 	p.conf.Store(loadedConf)
+	p.apiConf.Store(loadedConf)
 
 	err = p.createResources(true)
 	if err != nil {
@@ -1283,6 +1285,7 @@ func (p *Core) reloadConf(newConf *conf.Conf) error {
 	p.closeResources(newConf)
 
 	p.conf.Store(newConf)
+	p.apiConf.Store(newConf)
 
 	err := p.createResources(false)
 	if err != nil {
@@ -1297,8 +1300,10 @@ func (p *Core) reloadConf(newConf *conf.Conf) error {
 	return nil
 }
 
+// apiConfigSnapshot returns the configuration last accepted, that is the one
+// an API edit has been answered for, even if resources are still being reloaded.
 func (p *Core) apiConfigSnapshot() *conf.Conf {
-	return p.conf.Load()
+	return p.apiConf.Load()
 }
 
 func (p *Core) doAPIConfigGlobalPatch(in conf.OptionalGlobal) (*conf.Conf, error) {
@@ -1310,6 +1315,7 @@ func (p *Core) doAPIConfigGlobalPatch(in conf.OptionalGlobal) (*conf.Conf, error
 	}
 
 	p.Log(logger.Info, "reloading configuration (API request)")
+	p.apiConf.Store(newConf)
 	return newConf, nil
 }
 
@@ -1322,6 +1328,7 @@ func (p *Core) doAPIConfigPathDefaultsPatch(in conf.OptionalPath) (*conf.Conf, e
 	}
 
 	p.Log(logger.Info, "reloading configuration (API request)")
+	p.apiConf.Store(newConf)
 	return newConf, nil
 }
 
@@ -1337,6 +1344,7 @@ func (p *Core) doAPIConfigPathAdd(name string, in conf.OptionalPath) (*conf.Conf
 	}
 
 	p.Log(logger.Info, "reloading configuration (API request)")
+	p.apiConf.Store(newConf)
 	return newConf, nil
 }
 
@@ -1352,6 +1360,7 @@ func (p *Core) doAPIConfigPathPatch(name string, in conf.OptionalPath) (*conf.Co
 	}
 
 	p.Log(logger.Info, "reloading configuration (API request)")
+	p.apiConf.Store(newConf)
 	return newConf, nil
 }
 
@@ -1367,6 +1376,7 @@ func (p *Core) doAPIConfigPathReplace(name string, in conf.OptionalPath) (*conf.
 	}
 
 	p.Log(logger.Info, "reloading configuration (API request)")
+	p.apiConf.Store(newConf)
 	return newConf, nil
 }
 
@@ -1382,6 +1392,7 @@ func (p *Core) doAPIConfigPathDelete(name string) (*conf.Conf, error) {
 	}
 
 	p.Log(logger.Info, "reloading configuration (API request)")
+	p.apiConf.Store(newConf)
 	return newConf, nil
 }
 
